@@ -138,4 +138,43 @@ example (s : State) : ChildrenExact s { name := "r", index := { manifests := [] 
   simp only [List.mem_singleton] at hd
   subst hd
   simp [Ann.len] at h0
+/-! ## the age wrapper of the driver changes nothing the handler theorems speak about
+
+The driver runs `stepAged` (lean/Upd/GC.lean), every theorem about requests is stated for `step`.  The two give the same
+answer, and the state after `stepAged` is the state after `step` in which only the `old` list of the addressed
+repository may be shorter. -/
+theorem touchDig_only_old (rp : Repo) (d : String) :
+    ∃ o, touchDig rp d = { rp with old := o } := by
+  unfold touchDig
+  split
+  · exact ⟨_, rfl⟩
+  · exact ⟨rp.old, rfl⟩
+
+theorem touch_fold_only_old (l : List String) (rp : Repo) : ∃ o, l.foldl touchDig rp = { rp with old := o } := by
+  induction l generalizing rp with
+  | nil => exact ⟨rp.old, rfl⟩
+  | cons d t ih =>
+    obtain ⟨o1, h1⟩ := touchDig_only_old rp d
+    obtain ⟨o2, h2⟩ := ih (touchDig rp d)
+    refine ⟨o2, ?_⟩
+    simp only [List.foldl_cons]
+    rw [h2, h1]
+
+theorem ageWith_answer (s' : State) (r : String) (l : List String) (o : Resp) : (ageWith s' r l o).2 = o := by
+  unfold ageWith; split <;> rfl
+
+theorem ageWith_state (s' : State) (r : String) (l : List String) (o : Resp) :
+    (ageWith s' r l o).1 = s' ∨ ∃ old', (ageWith s' r l o).1 = s'.setRepo { s'.repo r with old := old' } := by
+  unfold ageWith
+  split
+  · left; rfl
+  · right
+    obtain ⟨o1, ho⟩ := touch_fold_only_old l (s'.repo r)
+    exact ⟨o1, by simp only []; rw [ho]⟩
+
+theorem stepAged_answer (s : State) (q : Req) : (stepAged s q).2 = (step s q).2 := ageWith_answer _ _ _ _
+
+theorem stepAged_state (s : State) (q : Req) :
+    (stepAged s q).1 = (step s q).1 ∨
+    ∃ o, (stepAged s q).1 = (step s q).1.setRepo { (step s q).1.repo q.repo with old := o } := ageWith_state _ _ _ _
 end C10
